@@ -28,6 +28,8 @@
   kernel evaluation.
 
   Validated by the oracle on every run, not proved: the tie between the model and the Go code;
+  the depth of the *delivered* trees (`deliveredDepth`; `depth_bounded` bounds the depth the parser
+  reaches, which is what the trees are built from);
   panics below the modelled interface (mime/net/mail/go-message/utf7); time and memory (measured);
   linear ghost cost of the remaining parsers (FETCH, THREAD, ESEARCH, status responses); that
   `fuel = 2·|input| + 8` never runs out (the driver reports `model-out-of-fuel` if it did).
